@@ -176,6 +176,16 @@ class Names:
             raise AnalysisError(f"groupby machinery: could not derive the attribute(s) {missing} (anchor moved)")
 
 
+def _is_state_value(ctx, u, cfg, call: ast.Call) -> bool:
+    """the second constructor argument denotes the shared state object (by origin, not by name)"""
+    if len(call.args) < 2:
+        return False
+    at = next((n for n in cfg.nodes if n.kind == "call" and n.ast is call and not n.tag), None)
+    v = ctx.vals.expr(u, call.args[1], at)
+    fq = ctx.pkg.cls("itertools._GroupByState").fq
+    return bool(v) and all(a[0] == "libinst" and a[1] == fq for a in v)
+
+
 def _is_state_expr(e: ast.AST) -> bool:
     return isinstance(e, ast.Name) and e.id == "state" or norm(e) == "self._state"
 
@@ -299,7 +309,7 @@ def r16_2(ctx, N) -> None:
                   "installed after the last suspension point", node=r)
         key = val.elts[0]
         made = [c for c in own_nodes(u.node) if isinstance(c, ast.Call) and norm(c.func) == ctx.pkg.cls_name("itertools._Grouper")]
-        ctx.check(len(made) == 1 and norm(made[0].args[0]) == norm(key) and _is_state_expr(made[0].args[1]), "R16.2", u,
+        ctx.check(len(made) == 1 and norm(made[0].args[0]) == norm(key) and _is_state_value(ctx, u, cfg, made[0]), "R16.2", u,
                   made[0] if made else r, "the returned group is bound to the returned key and the shared state")
     # scan loop (R16.3)
     loops = [n for n in own_nodes(u.node) if isinstance(n, ast.While) and not getattr(n, "asl_once", False)]
